@@ -53,6 +53,8 @@ struct SrcCtx {
     cur: Cursor<Vec<u8>>,
     files: HashMap<Vec<u8>, Box<SinkCtx>>,
     sched: Vec<i64>,
+    /// names for which the file callback declines to supply a writer
+    decline: Vec<Vec<u8>>,
 }
 extern "C" fn read_cb(buf: *mut u8, len: u32, ctx: *mut c_void, read: *mut u32) -> i32 {
     let c = unsafe { &mut *(ctx.cast::<SrcCtx>()) };
@@ -74,6 +76,9 @@ extern "C" fn seek_cb(off: i64, whence: i32, ctx: *mut c_void, newpos: *mut u64)
 extern "C" fn file_cb(ctx: *mut c_void, name: *const u8, len: usize, fw: *mut FileWriter) -> i32 {
     let c = unsafe { &mut *(ctx.cast::<SrcCtx>()) };
     let n = unsafe { std::slice::from_raw_parts(name, len) }.to_vec();
+    if c.decline.contains(&n) {
+        return 1;
+    }
     let sched = c.sched.clone();
     let sink = c.files.entry(n).or_insert_with(|| Box::new(SinkCtx { data: vec![], sched, i: 0, fail_armed: false, fired: false, calls: 0 }));
     let p: *mut SinkCtx = &mut **sink;
@@ -211,7 +216,15 @@ fn run_one(b: &Value) -> (Option<Value>, Vec<Value>) {
             Err(e) => return (Some(json!({"kind": "c-archive-unreadable", "err": format!("{e:?}")})), trace),
         }
         // (b) extraction through the C interface, with piecewise-accepting file writers
-        let mut src = Box::new(SrcCtx { cur: Cursor::new(bytes), files: HashMap::new(), sched: sched_of(b["sched"].as_str().unwrap()) });
+        let mut sorted: Vec<Vec<u8>> = want.keys().map(|n| archive::real_name(n).into_bytes()).collect();
+        sorted.sort();
+        let decline: Vec<Vec<u8>> = match b.get("decline").and_then(Value::as_str).unwrap_or("none") {
+            "first" => sorted.iter().take(1).cloned().collect(),
+            "second" => sorted.iter().skip(1).take(1).cloned().collect(),
+            "all" => sorted.clone(),
+            _ => vec![],
+        };
+        let mut src = Box::new(SrcCtx { cur: Cursor::new(bytes), files: HashMap::new(), sched: sched_of(b["sched"].as_str().unwrap()), decline: decline.clone() });
         let sctx: *mut c_void = (&mut *src as *mut SrcCtx).cast();
         let mut rcfg: MLAConfigHandle = null_mut();
         let priv_pem = {
@@ -225,8 +238,15 @@ fn run_one(b: &Value) -> (Option<Value>, Vec<Value>) {
         let st = mla_roarchive_extract(&mut rcfg, Some(read_cb), Some(seek_cb), Some(file_cb), sctx);
         if !status_ok(&st) { return (Some(json!({"kind": "c-extract-failed", "status": status_code(st)})), trace); }
         for (n, w) in &want {
-            let got = src.files.get(archive::real_name(n).as_bytes()).map(|s| s.data.clone()).unwrap_or_default();
-            if &got != w { return (Some(json!({"kind": "c-extract-content-differs", "name": n, "want_len": w.len(), "got_len": got.len()})), trace); }
+            let rn = archive::real_name(n).into_bytes();
+            let got = src.files.get(&rn).map(|s| s.data.clone());
+            if decline.contains(&rn) {
+                // no writer was supplied for it: nothing may be delivered anywhere for it
+                if got.is_some() { return (Some(json!({"kind": "c-extract-declined-file-delivered", "name": n})), trace); }
+                continue;
+            }
+            let got = got.unwrap_or_default();
+            if &got != w { return (Some(json!({"kind": "c-extract-content-differs", "name": n, "want_len": w.len(), "got_len": got.len(), "decline": b["decline"]})), trace); }
         }
         // the reader configuration handle was consumed: using it again must be refused, not crash
         let st2 = mla_roarchive_extract(&mut rcfg, Some(read_cb), Some(seek_cb), Some(file_cb), sctx);
